@@ -253,8 +253,8 @@ Definition prepare_all (fixed : bool) (nidx : nat) (st : cstate) (qs : list quad
   (with_elems st1 el, o).
 
 (* computeAll_nosplit (TwoParticleGFContainer.cpp:57-66): compute() through every entry of ElementsMap;
-   computeAll_split (:68-131) on one rank: compute() on every entry of NonTrivialElements (:100-106), the
-   distribution loop (:111-127) changes no status on the sending rank.  An exception leaves the loop. *)
+   computeAll_split (:68-132) on one rank: compute() on every entry of NonTrivialElements (:100-106), the
+   distribution loop (:111-128) changes no status on the sending rank.  An exception leaves the loop. *)
 Definition compute_all (st : cstate) (split : bool) : cstate * cout :=
   let ids := if split then nontriv_ids st else emap_ids st in
   let '(el, o) := run_seq compute_elem ids (elems st) in
